@@ -202,31 +202,45 @@ End Trace.
 
 (* ---------------------------------------------------------------- block data is complete at every crash prefix *)
 
+Lemma number_of_put : forall d k v h, number_of (put k v d) h =
+  match k, v with KHashNum h', VNum x => if N.eq_dec h h' then Some x else number_of d h
+  | KHashNum h', _ => if N.eq_dec h h' then None else number_of d h | _, _ => number_of d h end.
+Proof.
+  intros d k v h. unfold number_of. rewrite get_put.
+  destruct (key_eq_dec (KHashNum h) k) as [<-|Ne].
+  - destruct (N.eq_dec h h); [|congruence]. destruct v; reflexivity.
+  - destruct k; try reflexivity. destruct (N.eq_dec h h0); [subst; congruence|]. destruct v; reflexivity.
+Qed.
+Lemma sc_number : forall d d' h, same_core d d' -> number_of d' h = number_of d h.
+Proof. intros d d' h H. unfold number_of. rewrite (H (KHashNum h)); reflexivity. Qed.
+
 Lemma bdc_core : forall d d', same_core d d' -> block_data_complete d -> block_data_complete d'.
 Proof.
-  intros d d' H B h hd Hh. rewrite (sc_header _ _ _ H) in Hh. destruct (B h hd Hh) as (A1 & A2 & A3).
-  rewrite (sc_body _ _ _ H), (sc_td _ _ _ H), (sc_state _ _ _ H). auto.
+  intros d d' H B h hd Hh. rewrite (sc_header _ _ _ H) in Hh. destruct (B h hd Hh) as (A1 & A2 & A3 & A4).
+  rewrite (sc_body _ _ _ H), (sc_td _ _ _ H), (sc_state _ _ _ H), (sc_number _ _ _ H). auto.
 Qed.
 
 Lemma bdc_put_td : forall d h t, block_data_complete d -> block_data_complete (put (KTd h) (VNum t) d).
 Proof.
-  intros d h t B k hd Hk. rewrite header_of_put in Hk. destruct (B k hd Hk) as (A1 & A2 & A3).
-  rewrite body_of_put, td_of_put, has_state_put. repeat split; auto.
+  intros d h t B k hd Hk. rewrite header_of_put in Hk. destruct (B k hd Hk) as (A1 & A2 & A3 & A4).
+  rewrite body_of_put, td_of_put, has_state_put, number_of_put. repeat split; auto.
   destruct (N.eq_dec k h); [discriminate|exact A2].
 Qed.
 Lemma bdc_put_state : forall d r, block_data_complete d -> block_data_complete (put (KState r) VUnit d).
 Proof.
-  intros d r B k hd Hk. rewrite header_of_put in Hk. destruct (B k hd Hk) as (A1 & A2 & A3).
-  rewrite body_of_put, td_of_put, has_state_put. repeat split; auto.
+  intros d r B k hd Hk. rewrite header_of_put in Hk. destruct (B k hd Hk) as (A1 & A2 & A3 & A4).
+  rewrite body_of_put, td_of_put, has_state_put, number_of_put. repeat split; auto.
   destruct (N.eq_dec (h_root hd) r); [reflexivity|exact A3].
 Qed.
 Lemma bdc_d_block : forall d hd txs, block_data_complete d ->
   td_of d (h_hash hd) <> None -> has_state d (h_root hd) = true -> block_data_complete (d_block d hd txs).
 Proof.
   intros d hd txs B Ht Hs k x Hk. destruct (d_block_reads d hd txs) as (Eh & Eb & Et & Es).
-  rewrite Eh in Hk. rewrite Eb, Et, Es.
+  assert (En : number_of (d_block d hd txs) k = if N.eq_dec k (h_hash hd) then Some (h_number hd) else number_of d k)
+    by (unfold d_block; rewrite !number_of_put; reflexivity).
+  rewrite Eh in Hk. rewrite Eb, Et, Es, En.
   destruct (N.eq_dec k (h_hash hd)) as [->|Nk].
-  - injection Hk as <-. repeat split; [discriminate|exact Ht|exact Hs].
+  - injection Hk as <-. repeat split; [discriminate|exact Ht|exact Hs|discriminate].
   - apply (B k x Hk).
 Qed.
 
@@ -373,24 +387,49 @@ Proof.
       exfalso. eapply no_pruned; eassumption.
 Qed.
 
+Lemma insert_chain_trace : forall c cs s, Inv U g s -> TOK s -> (forall b, In b c -> wf_block U b) ->
+  TOK (snd (insert_chain c cs s)).
+Proof.
+  intros c cs s I T Wc. unfold insert_chain. destruct c as [|b r]; [exact T|].
+  apply ic_loop_trace.
+  - destruct I as [A B C]. constructor; assumption.
+  - eapply trace_mem; [| |exact T]; reflexivity.
+  - assert (Hsub : forall l p x, In x (contiguous_prefix p l) -> In x l).
+    { induction l as [|y l IHl]; intros p x Hx; cbn [contiguous_prefix] in Hx; [contradiction|].
+      destruct ((h_number (b_hdr y) =? h_number (b_hdr p) + 1) && (h_parent (b_hdr y) =? h_hash (b_hdr p))); [|contradiction].
+      destruct Hx as [<-|Hx]; [left; reflexivity|right; eapply IHl; exact Hx]. }
+    intros x [<-|Hx]; [apply Wc; left; reflexivity|apply Wc; right; eapply Hsub; exact Hx].
+Qed.
+
+Lemma tok_pre_open : d0 = genesis_disk g -> TOK (pre_open g).
+Proof.
+  intro Ed0.
+  split; [rewrite Ed0; reflexivity|]. intro k. unfold crash_disk. cbn [log_of wlog pre_open rev]. rewrite firstn_nil. cbn [replay fold_left].
+  rewrite Ed0. pose proof (inv_d _ _ _ (inv_pre_open U g Ug g0)) as ID. cbn [dsk pre_open] in ID.
+  intros h hd Hh. destruct (d_cons_h _ _ _ ID _ _ Hh) as [Ehd _].
+  assert (Hh' : header_of (genesis_disk g) h <> None) by congruence.
+  assert (Hn : number_of (genesis_disk g) h <> None).
+  { assert (Ehg : header_of (genesis_disk g) h = if N.eq_dec h (h_hash g) then Some g else None)
+      by (unfold genesis_disk, replay; cbn [fold_left apply_wop]; rewrite !header_of_put; reflexivity).
+    rewrite Ehg in Hh. destruct (N.eq_dec h (h_hash g)) as [->|]; [|discriminate].
+    unfold genesis_disk, replay; cbn [fold_left apply_wop]. rewrite !number_of_put.
+    destruct (N.eq_dec (h_hash g) (h_hash g)); [discriminate|congruence]. }
+  split; [apply (hdr_body U g _ _ ID Hh')|].
+  destruct (N.eq_dec h (h_hash g)) as [->|Ne].
+  - rewrite (d_gen_hdr _ _ _ ID) in Hh. injection Hh as <-. rewrite (d_gen_td _ _ _ ID), (d_gen_state _ _ _ ID). split; [discriminate|split; [reflexivity|exact Hn]].
+  - destruct (d_stored _ _ _ ID _ Hh' Ne) as (_ & Hs & _ & _ & t & pt & Ht & _). rewrite Ht, Ehd. split; [discriminate|split; [exact Hs|exact Hn]].
+Qed.
+
 (* every crash prefix of an import-only history has complete block data: a
-   header on disk always has its body, its total difficulty and the state of
-   its root on disk (the state commit and the TD precede the block batch) *)
+   header on disk always has its body, its total difficulty, the state of its
+   root and its hash->number record on disk (the state commit and the TD
+   precede the block batch) *)
 Theorem block_data_complete_every_prefix : forall ops,
   inserts_only ops -> (forall b, In b (blocks_of ops) -> wf_block U b) ->
   d0 = genesis_disk g ->
   forall k, block_data_complete (crash_disk d0 (log_of (run ops (pre_open g))) k).
 Proof.
   intros ops Hio W Ed0.
-  assert (T0 : TOK (pre_open g)).
-  { split; [rewrite Ed0; reflexivity|]. intro k. unfold crash_disk. cbn [log_of wlog pre_open rev]. rewrite firstn_nil. cbn [replay fold_left].
-    rewrite Ed0. pose proof (inv_d _ _ _ (inv_pre_open U g Ug g0)) as ID. cbn [dsk pre_open] in ID.
-    intros h hd Hh. destruct (d_cons_h _ _ _ ID _ _ Hh) as [Ehd _].
-    assert (Hh' : header_of (genesis_disk g) h <> None) by congruence.
-    split; [apply (hdr_body U g _ _ ID Hh')|].
-    destruct (N.eq_dec h (h_hash g)) as [->|Ne].
-    - rewrite (d_gen_hdr _ _ _ ID) in Hh. injection Hh as <-. rewrite (d_gen_td _ _ _ ID), (d_gen_state _ _ _ ID). split; [discriminate|reflexivity].
-    - destruct (d_stored _ _ _ ID _ Hh' Ne) as (_ & Hs & _ & _ & t & pt & Ht & _). rewrite Ht, Ehd. split; [discriminate|exact Hs]. }
   assert (Gen : forall ops s, inserts_only ops -> (forall b, In b (blocks_of ops) -> wf_block U b) ->
                 Inv U g s -> TOK s -> TOK (run ops s)).
   { clear ops Hio W. induction ops as [|o ops IH]; intros s Hio W I T; [exact T|].
@@ -405,16 +444,8 @@ Proof.
     apply IH; auto.
     - intros o' Ho'. apply Hio. right. exact Ho'.
     - intros b Hb. apply W. unfold blocks_of. cbn [flat_map]. apply in_or_app. right. exact Hb.
-    - unfold insert_chain. destruct c as [|b r]; [exact T|].
-      apply ic_loop_trace.
-      + destruct I as [A B C]. constructor; assumption.
-      + eapply trace_mem; [| |exact T]; reflexivity.
-      + assert (Hsub : forall l p x, In x (contiguous_prefix p l) -> In x l).
-        { induction l as [|y l IHl]; intros p x Hx; cbn [contiguous_prefix] in Hx; [contradiction|].
-          destruct ((h_number (b_hdr y) =? h_number (b_hdr p) + 1) && (h_parent (b_hdr y) =? h_hash (b_hdr p))); [|contradiction].
-          destruct Hx as [<-|Hx]; [left; reflexivity|right; eapply IHl; exact Hx]. }
-        intros x [<-|Hx]; [apply Wc; left; reflexivity|apply Wc; right; eapply Hsub; exact Hx]. }
-  destruct (Gen ops (pre_open g) Hio W (inv_pre_open U g Ug g0) T0) as [_ H]. exact H.
+    - apply insert_chain_trace; assumption. }
+  destruct (Gen ops (pre_open g) Hio W (inv_pre_open U g Ug g0) (tok_pre_open Ed0)) as [_ H]. exact H.
 Qed.
 
 End TraceHist.
